@@ -222,6 +222,14 @@ impl<R: DynamicChannelRegion> RegionHandler for DynamicChannelPlan<R> {
                 }
             }
             Frame::Data => {
+                // If no defined channel is enabled any more (eg: a NewChannelReq removed the
+                // last enabled one) the search below would spin forever: fall back to the
+                // default (join) channels, which are always defined.
+                if !self.channel_mask_validate(&self.channel_mask, None) {
+                    for i in 0..R::NUM_JOIN_CHANNELS {
+                        self.channel_mask.set_channel(i as usize, true);
+                    }
+                }
                 let mut channel = self.get_random_in_range(rng);
                 loop {
                     if self.channel_mask.is_enabled(channel).unwrap()
